@@ -61,24 +61,36 @@ func c05Index(pp *packages.Package) map[string]c05TypeSite {
 // c05Expect evaluates one annotation on type tname exactly as the property states it, with
 // go/types as the only authority:
 //
-//	IMPL01 iff the qualifier is not a package name bound in the file's scope by an import
-//	declaration (go/types binds the explicit alias, else the imported package's declared name;
-//	"_" and "." bind no package name);
+//	IMPL01 iff the qualifier is not a name under which an import declaration of the file brings
+//	a package in: the explicit alias when there is one other than "_" / ".", else the imported
+//	package's declared name (types.Package.Name()). Blank and dot imports therefore count under
+//	the declared name — the statement says "under its explicit alias or the imported package's
+//	declared name", and `import _ "io"` is the documented way to make io.Reader referable;
 //	otherwise IMPL02 iff the resolved package's scope has no interface-typed TypeName of that name;
 //	otherwise IMPL03 iff V (T, or *T with &) does not implement I, the listed methods being those
 //	of I that the method set of V lacks or has with a non-identical type.
 func c05Expect(pp *packages.Package, site c05TypeSite, tname string, an c05Ann, iname string) c05Verdict {
 	target := pp.Types
 	if an.Qual != "" {
-		fileScope := pp.TypesInfo.Scopes[site.file]
-		if fileScope == nil {
-			common.Fatalf("C05 reference: no file scope for %s", tname)
+		target = nil
+		for _, spec := range site.file.Imports {
+			imported := c05Imported(pp, spec)
+			name := imported.Name()
+			if spec.Name != nil && spec.Name.Name != "_" && spec.Name.Name != "." {
+				name = spec.Name.Name
+			}
+			if name == an.Qual {
+				target = imported
+				break
+			}
 		}
-		pn, ok := fileScope.Lookup(an.Qual).(*types.PkgName)
-		if !ok {
+		if target == nil {
 			return c05Verdict{Code: "IMPL01", Key: an.Qual}
 		}
-		target = pn.Imported()
+		// cross-check with Go's own binding for ordinary and renamed imports
+		if pn, ok := pp.TypesInfo.Scopes[site.file].Lookup(an.Qual).(*types.PkgName); ok && pn.Imported() != target {
+			common.Fatalf("C05 reference: %q is bound to %s by go/types but to %s by the import list", an.Qual, pn.Imported().Path(), target.Path())
+		}
 	}
 	disp := iname
 	if an.Qual != "" {
@@ -116,6 +128,27 @@ func c05Expect(pp *packages.Package, site c05TypeSite, tname string, an c05Ann, 
 		return c05Verdict{}
 	}
 	return c05Verdict{Code: "IMPL03", Key: disp, Missing: missing}
+}
+
+// c05Imported returns the package an import spec denotes, as go/types resolved it.
+func c05Imported(pp *packages.Package, spec *ast.ImportSpec) *types.Package {
+	var obj types.Object
+	if spec.Name != nil {
+		obj = pp.TypesInfo.Defs[spec.Name]
+	} else {
+		obj = pp.TypesInfo.Implicits[spec]
+	}
+	if pn, ok := obj.(*types.PkgName); ok {
+		return pn.Imported()
+	}
+	path := strings.Trim(spec.Path.Value, `"`)
+	for _, ip := range pp.Types.Imports() {
+		if ip.Path() == path {
+			return ip
+		}
+	}
+	common.Fatalf("C05 reference: import %s not resolved", spec.Path.Value)
+	return nil
 }
 
 var (
